@@ -49,11 +49,11 @@ pub struct Node {
 #[derive(Clone, Debug)]
 pub enum Event {
     /// comparison a ? b (which trait method, result as Option<Ordering> code)
-    Cmp { a: u32, b: u32, kind: &'static str },
+    Cmp { a: u32, b: u32, kind: &'static str, at: u32 },
     /// to_f64 on node
-    Narrow { node: u32 },
+    Narrow { node: u32, at: u32 },
     /// from_f64 / from_isize: new const node
-    Widen { node: u32, kind: ConstKind },
+    Widen { node: u32, kind: ConstKind, at: u32 },
 }
 
 #[derive(Default)]
@@ -89,6 +89,9 @@ fn push(op: Op, a: u32, b: u32, v: f64) -> Tr {
     })
 }
 
+fn now() -> u32 {
+    DAG.with(|d| d.borrow().nodes.len() as u32)
+}
 fn event(e: Event) {
     DAG.with(|d| d.borrow_mut().events.push(e))
 }
@@ -112,7 +115,7 @@ impl Tr {
     fn konst(kind: ConstKind, v: f64) -> Tr {
         let t = push(Op::Const(kind), NOARG, NOARG, v);
         if matches!(kind, ConstKind::FromF64 | ConstKind::FromIsize) {
-            event(Event::Widen { node: t.id, kind });
+            event(Event::Widen { node: t.id, kind, at: t.id });
         }
         t
     }
@@ -120,13 +123,13 @@ impl Tr {
 
 impl PartialEq for Tr {
     fn eq(&self, o: &Tr) -> bool {
-        event(Event::Cmp { a: self.id, b: o.id, kind: "eq" });
+        event(Event::Cmp { a: self.id, b: o.id, kind: "eq", at: now() });
         self.v == o.v
     }
 }
 impl PartialOrd for Tr {
     fn partial_cmp(&self, o: &Tr) -> Option<Ordering> {
-        event(Event::Cmp { a: self.id, b: o.id, kind: "cmp" });
+        event(Event::Cmp { a: self.id, b: o.id, kind: "cmp", at: now() });
         self.v.partial_cmp(&o.v)
     }
 }
@@ -234,7 +237,7 @@ impl MomTropFloat for Tr {
         Tr::konst(ConstKind::FromF64, value)
     }
     fn to_f64(&self) -> f64 {
-        event(Event::Narrow { node: self.id });
+        event(Event::Narrow { node: self.id, at: now() });
         self.v
     }
 }
@@ -294,7 +297,7 @@ impl Dag {
                     u[*a as usize] = true;
                     u[*b as usize] = true;
                 }
-                Event::Narrow { node } => u[*node as usize] = true,
+                Event::Narrow { node, .. } => u[*node as usize] = true,
                 Event::Widen { .. } => {}
             }
         }
